@@ -318,6 +318,54 @@ def solver_uses_lookup(chk, rng):
             chk.violation("C09.SolverDoesNotUseLookupAtAirMach", {"source": "hook", "wind_from_deg": wdir}, {"shot": p, **bad})
 
 
+def dict_table_histories(chk, rng, n):
+    """custom tables handed over as lists of dicts, with a history: (a) the caller edits its own dict list in place (other
+    drag values, same list object, same length) and builds another model from it; (b) several tables of the SAME length are
+    produced one after the other by a helper - each list is dropped before the next is created, so the interpreter may hand
+    the next list the address of the previous one - all models are built first and used afterwards.  Each model's drag at
+    every node is that of the table it was built from."""
+    m = impl.pb()
+
+    def node_errors(dm, pts, bc):
+        tc = calc_for_model(m, dm)
+        return [(a, b, tc.drag_by_mach(a) * bc / 2.08551e-04) for a, b in pts if abs(tc.drag_by_mach(a) * bc / 2.08551e-04 - b) > 1e-9 * b]
+
+    for j in range(n):
+        k = rng.choice([5, 7, 9])
+        xs = sorted({round(0.2 + 0.35 * i + rng.uniform(0, 0.2), 3) for i in range(k)})
+        pts1 = [(x, round(rng.uniform(0.15, 0.8), 4)) for x in xs]
+        pts2 = [(x, round(cd * rng.choice([0.6, 1.4]), 4)) for x, cd in pts1]
+        bc = rng.choice([0.25, 0.5])
+        tab = [{"Mach": a, "CD": b} for a, b in pts1]
+        dm1 = m.DragModel(bc, tab)
+        bad1 = node_errors(dm1, pts1, bc)
+        for e, (_, b) in zip(tab, pts2):
+            e["CD"] = b
+        dm2 = m.DragModel(bc, tab)
+        chk.count(2, ("dict-history", j))
+        chk.stratum("dict_table_edited_in_place_and_given_again")
+        for which, bad in (("first model", bad1), ("model built after the caller edited its dict list", node_errors(dm2, pts2, bc)),
+                           ("first model, after the second was built", node_errors(dm1, pts1, bc))):
+            if bad:
+                chk.violation("C09.NodeValueDiffers", {"source": "dict-table-history", "which": which}, {"table_now": pts2, "table_first": pts1, "mach_tabulated_used": bad[:4]})
+
+    def make_table(scale):
+        return [{"Mach": 0.5 * i, "CD": round(0.2 + 0.03 * i, 3) * scale} for i in range(7)]
+
+    def build(scale):
+        return m.DragModel(0.4, make_table(scale))     # the dict list is dropped on return
+    scales = [1.0, 1.3, 0.7, 1.9, 0.45, 1.1]
+    models = [build(sc) for sc in scales]
+    for sc, dm in zip(scales, models):
+        pts = [(0.5 * i, round(0.2 + 0.03 * i, 3) * sc) for i in range(7)]
+        bad = node_errors(dm, pts, 0.4)
+        chk.count(1, ("dict-dropped", sc))
+        chk.stratum("same_length_dict_tables_built_and_dropped_in_turn")
+        if bad:
+            chk.violation("C09.NodeValueDiffers", {"source": "dict-table-history", "which": "one of several same-length dict tables built in turn"},
+                          {"scale": sc, "mach_tabulated_used": bad[:4]})
+
+
 def run(chk: core.Check, replay=None) -> None:
     core.use_repo(hooks=True)
     core.reset_world()
@@ -352,6 +400,7 @@ def run(chk: core.Check, replay=None) -> None:
     for tid, clause in fails:
         chk.violation(clause, {"source": "real-table", "table": raw[tid]["table"] if raw[tid]["line"]["shipped"] else "custom"}, raw[tid])
     solver_uses_lookup(chk, rng)
+    dict_table_histories(chk, rng, 40 if thorough else 6)
     # table identity again after the library has been used
     m = impl.pb()
     sh = shots.build_shot(shots.gen_shot(rng))
@@ -364,7 +413,7 @@ def run(chk: core.Check, replay=None) -> None:
     if bad:
         chk.violation("C09.ShippedTableChangedByLibraryCall", {"tables": bad}, {"tables": bad})
     chk.sample(next(iter(raw.values())))
-    chk.require_strata(["int_at_node", "int_beyond_table", "int_midpoint_or_half", "real_shipped", "real_custom", "real_at_node", "real_beyond", "solver_uses_lookup", "solver_lookup_wind_changes_in_flight", "real_table_edited_in_place_on_a_long_used_calculator", "real_multibc_model"])
+    chk.require_strata(["int_at_node", "int_beyond_table", "int_midpoint_or_half", "real_shipped", "real_custom", "real_at_node", "real_beyond", "solver_uses_lookup", "solver_lookup_wind_changes_in_flight", "real_table_edited_in_place_on_a_long_used_calculator", "real_multibc_model", "dict_table_edited_in_place_and_given_again", "same_length_dict_tables_built_and_dropped_in_turn"])
     chk.rule.append("every table shape (3..%d nodes, gaps 1..3) x every quarter-grid query (TLC Gen_DragLookup) through 2 entry "
                     "points; all 9 shipped tables and seeded custom tables queried at / +-1 ulp / +-1e-9 around every node and "
                     "midpoint and beyond the last entry; non-trivial = query within the table span" % (6 if thorough else 5))
